@@ -189,6 +189,8 @@ pub struct ObjKey {
     pub d15: bool,
     /// D20 classifier: a sample file name that ends in whitespace
     pub d20: bool,
+    /// D21 classifier: a slider node whose samples carry a custom file name
+    pub d21: bool,
 }
 
 #[derive(Clone, Debug, PartialEq)]
@@ -219,6 +221,14 @@ pub fn object_times(m: &mut Beatmap) -> Vec<f64> {
         }
     }
     out
+}
+
+/// D18 classifier: two distinct control-point times closer than f64::EPSILON (the decoder's same-time grouping
+/// cannot tell them apart once their lines are adjacent)
+pub fn has_times_closer_than_epsilon(cp: &ControlPoints) -> bool {
+    let mut t = control_point_times(cp);
+    t.sort_by(|a, b| a.partial_cmp(b).unwrap_or(std::cmp::Ordering::Equal));
+    t.windows(2).any(|w| w[0] != w[1] && (w[1] - w[0]).abs() < f64::EPSILON)
 }
 
 pub fn control_point_times(cp: &ControlPoints) -> Vec<f64> {
@@ -329,6 +339,7 @@ pub fn object_key(h: &mut HitObject, bufs: &mut CurveBuffers) -> ObjKey {
             d13: false,
             d15: false,
             d20: d20_own,
+            d21: false,
         },
         HitObjectKind::Slider(s) => {
             let excluded = has_consecutive_catmull(s.path.control_points());
@@ -364,6 +375,9 @@ pub fn object_key(h: &mut HitObject, bufs: &mut CurveBuffers) -> ObjKey {
                 d13,
                 d15,
                 d20: d20_own || s.node_samples.iter().any(|v| file_name_ends_in_whitespace(v)),
+                d21: s.node_samples.iter().any(|v| {
+                    v.iter().any(|x| matches!(x.name, rosu_map::section::hit_objects::hit_samples::HitSampleInfoName::File(_)))
+                }),
             }
         }
         HitObjectKind::Spinner(s) => ObjKey {
@@ -378,6 +392,7 @@ pub fn object_key(h: &mut HitObject, bufs: &mut CurveBuffers) -> ObjKey {
             d13: false,
             d15: false,
             d20: d20_own,
+            d21: false,
         },
         HitObjectKind::Hold(hd) => ObjKey {
             head: format!("{:?} hold x {:?} dur {:?}", h.start_time, hd.pos_x, hd.duration),
@@ -388,6 +403,7 @@ pub fn object_key(h: &mut HitObject, bufs: &mut CurveBuffers) -> ObjKey {
             d13: false,
             d15: false,
             d20: d20_own,
+            d21: false,
         },
     }
 }
